@@ -41,8 +41,9 @@ func replayFrame(kind string, f map[string]string) (string, bool) {
 }
 
 // runRSo adds the class-specific oracles (evaluated on the implementation's behaviour)
-//   valid: clean end of stream and exactly the content;   trunc/fault: an error that is not a clean
-//   end, delivered bytes a prefix of the content;   mut/hostile/life: (specification oracle in the model runner)
+//
+//	valid: clean end of stream and exactly the content;   trunc/fault: an error that is not a clean
+//	end, delivered bytes a prefix of the content;   mut/hostile/life: (specification oracle in the model runner)
 func runRSo(c *rsCase, cls string, want []byte) string {
 	obs := runRS(c)
 	f := map[string]string{}
@@ -628,10 +629,6 @@ func compCR(o *out, seed uint64, tier string) {
 	szc := []int{0, 1, 3, 6, 7, 8, 15, 100, 5000, 70000, 300000}
 	for i := 0; i < 160*mult; i++ {
 		n := []int{0, 1, 50, 1000, bs - 1, bs, bs + 1, 2 * bs}[r.intn(8)]
-		opts := fmt.Sprintf("bs=4,bc=%d,cc=%d,lvl=%d", r.intn(2), r.intn(2), levels[r.intn(4)])
-		if r.intn(4) == 0 {
-			opts += fmt.Sprintf(",sz=%d", n)
-		}
 		var sizes []int
 		for k := 1 + r.intn(6); k > 0; k-- {
 			sizes = append(sizes, szc[r.intn(len(szc))])
@@ -641,6 +638,10 @@ func compCR(o *out, seed uint64, tier string) {
 		}
 		if sizes[len(sizes)-1] < 100 && n > 1000 {
 			n = r.intn(1000) // tiny buffers only with small inputs (cost of the extracted model)
+		}
+		opts := fmt.Sprintf("bs=4,bc=%d,cc=%d,lvl=%d", r.intn(2), r.intn(2), levels[r.intn(4)])
+		if r.intn(4) == 0 {
+			opts += fmt.Sprintf(",sz=%d", n)
 		}
 		c := &crCase{data: fmt.Sprintf("g:%d,%d,%d", r.intn(4), r.intn(500), n), opts: opts, sizes: sizes, frag: r.intn(5)}
 		obs := iso("cr", c.fields(), 30*time.Second)
